@@ -1652,6 +1652,11 @@ class Exec:
             old = self.read_path(st, args[0][1])
             st.store.write(args[0][1], ("fill", old, cu(0), self.length(old), args[1]))
             return UNIT
+        if re.search(r"<impl \[[^\]]*\]>::fill$", n) and isinstance(args[0], tuple) and args[0][0] == "sliceiter" and isinstance(args[0][1], tuple):
+            # `buf[a..b].fill(v)`: the range was recorded as a slice-index site (C12 discharges b <= len there); the store covers [a, b) only
+            old = self.read_path(st, args[0][1])
+            st.store.write(args[0][1], ("fill", old, args[0][2], args[0][3], args[1]))
+            return UNIT
         if re.search(r"slice::index::<impl (std|core)::ops::Index(Mut)?<.*> for \[[^\]]*\]>::index(_mut)?$|<\[[^\]]*\] as (std|core)::ops::Index(Mut)?<.*>>::index(_mut)?$", callees.strip_turbofish(n)):
             base = args[0]
             rng = args[1]
